@@ -73,6 +73,34 @@ def exec_sched_case(case: dict) -> dict:
             "traces": traces, "replay": replay, "rcs": [s["rc"] for s in sides]}
 
 
+def exec_hist_sched_case(case: dict) -> dict:
+    """The same edit history under different schedules: the final builds must agree."""
+    project, base = case["project"], case["phases"]
+    rng = random.Random(case["seed"])
+    variants = [
+        {"njob": 1, "policy": "fifo"}, {"njob": 2, "policy": "lifo"}, {"njob": 3, "policy": "random"},
+        {"njob": 2, "policy": "random"},
+    ][: case["k"]]
+    sides, traces = [], []
+    for j, var in enumerate(variants):
+        phases = []
+        for ph in base:
+            ph2 = dict(ph, cfg=dict(ph.get("cfg", {}), njob=var["njob"], resources="gpu:2,tpu:2"), policy=var["policy"],
+                       seed=rng.randrange(10**6))
+            phases.append(ph2)
+        out = run_history(project, phases)
+        tid = f"{case['tid']}/h{j}"
+        traces.append((tid, tlc.export_trace(tid, out["events"])))
+        sides.append(side(out["runs"][-1]))
+    rels = []
+    for j in range(1, len(sides)):
+        rels.append({"tid": case["tid"], "k": j, "rel": "same_final", "a": sides[j], "b": sides[0],
+                     "info": {"a": variants[j], "b": variants[0]}})
+    replay = {"tid": case["tid"], "project": project, "phases": base, "schedule_variants": variants}
+    return {"tid": case["tid"], "rels": [json.dumps(r, separators=(",", ":"), sort_keys=True) for r in rels],
+            "traces": traces, "replay": replay, "rcs": [s["rc"] for s in sides]}
+
+
 def hard_conflict_projects(seed, n):
     """Plans whose sub-plans make conflicting declarations and do not catch the rejection."""
     cases = engine_b.conflict_cases(seed, n, prefix="x")
@@ -106,7 +134,24 @@ def main(argv=None):
         for c in hard_conflict_projects(args.seed, n // 2):
             cases.append({"tid": "sch-" + c["tid"], "project": c["project"], "seed": args.seed, "k": 4,
                           "cfg_extra": {"keep_going": True, "defer_cap": 3}})
-        results = pmap(exec_sched_case, cases)
+        # resumed builds: the same edit history under different schedules
+        hcases = []
+        for name, fn in SHAPES.items():
+            proj = fn()
+            if proj.get("schedule_dependent"):
+                continue
+            both = [["set", p, v[1]] for p, v in proj["sources"].items() if len(v) > 1 and not p.endswith(".py")]
+            if both:
+                hcases.append({"tid": f"hs-{name}", "project": proj, "seed": args.seed, "k": 4,
+                               "phases": [initial_phase(proj, seed=1), {"edits": both + proj.get("env_edits", []), "how": "restart", "cfg": {}}]})
+        for i in range(n // 2):
+            g = Gen(args.seed * 100003 + i + 7000)
+            g.features["fail"] = 0.0
+            g.features["late_subplan"] = 0.0
+            proj = g.project()
+            hcases.append({"tid": f"hs{args.seed}-{i}", "project": proj, "seed": args.seed * 3 + i, "k": 3,
+                           "phases": g.history(proj, nphases=3, watch_p=0.0, cfgs=[{"njob": 2, "resources": "gpu:2,tpu:2"}])})
+        results = pmap(exec_sched_case, cases) + pmap(exec_hist_sched_case, hcases)
         rel_lines, traces, replays = [], [], {}
         classes = {}
         for kind, r in results:
